@@ -87,7 +87,16 @@ BASE_EXEMPT = {
 class MFilter:
     _strict_attrs = True
 
-    def __init__(self, mask):
+    def __init__(self, mask, owner=None):
+        self.all = L.Arr(mask)
+        self.manual = L.Arr([True] * len(mask))
+        if owner is not None and not owner.is_root():
+            # a hierarchy member whose own filter is in sync with its parent
+            self.parent_changed = False
+
+    def set_all(self, mask):
+        """in-place update, as Filter.update does (same object, new
+        content)"""
         self.all = L.Arr(mask)
         self.manual = L.Arr([True] * len(mask))
 
@@ -109,7 +118,8 @@ class MDS:
         self._usertemp = {}
         self._log = log if log is not None else []
         size = len(self.ids())
-        self.filter = MFilter(mask if mask is not None else [True] * size)
+        self.filter = MFilter(mask if mask is not None else [True] * size,
+                              self)
         self.config = {"filtering": {"polygon filters": []}}
 
     def is_root(self):
@@ -120,7 +130,12 @@ class MDS:
         if self.is_root():
             return list(range(self._n))
         p = self.hparent
-        return [i for i, m in zip(p.ids(), p.filter.all.data) if m]
+        return [i for i, m in zip(p.ids(), p.mask()) if m]
+
+    def mask(self):
+        f = self.filter
+        a = f._attrs["all"] if isinstance(f, L.AstObject) else f.all
+        return list(a.data)
 
     def __len__(self):
         return len(self.ids())
@@ -160,7 +175,7 @@ def chains(n, depth):
         par = lst[-1]
         size = len(par)
         for mask in itertools.product([False, True], repeat=size):
-            par.filter = MFilter(list(mask))
+            par.filter = MFilter(list(mask), par)
             child = MDS(hparent=par)
             yield from rec(lst + [child], k + 1)
     root = MDS(n=n)
@@ -943,11 +958,83 @@ def r44(ctx, repo, menv, n):
                    f"specification {b[3]}",
                    node=repo.func(MAPPER, fname),
                    label=f"specification, depth {depth}")
+    # histories: the same dataset / filter objects are evaluated, the
+    # ancestors' filters are changed in place (as Filter.update does) and
+    # the maps are evaluated again - a memo keyed too weakly (e.g. by the
+    # number of selected events) shows up as a stale translation
+    hn = min(n, 3)
+    hbad = {k: None for k in fnames}
+    hcnt = 0
+
+    def check_all(ch, tag):
+        nonlocal hcnt
+        child, par = ch[-1], ch[-2]
+        cids, pids = child.ids(), par.ids()
+        pos = [j for j, x in enumerate(par.mask()) if x]
+        full = list(range(len(cids)))
+        jobs = [
+            ("map_indices_child2parent",
+             dict(child=child, child_indices=L.Arr(full)),
+             [pos[i] for i in full]),
+            ("map_indices_child2root",
+             dict(child=child, child_indices=L.Arr(full)), list(cids)),
+            ("map_indices_parent2child",
+             dict(child=child, parent_indices=L.Arr(
+                 list(range(len(pids))))), full),
+            ("map_indices_root2child",
+             dict(child=child, root_indices=L.Arr(list(range(hn)))), full),
+        ]
+        if cids:
+            jobs.append(("map_indices_root2child", dict(
+                child=child, root_indices=L.Arr([cids[-1]])),
+                [len(cids) - 1]))
+            jobs.append(("map_indices_parent2child", dict(
+                child=child, parent_indices=L.Arr([pos[0]])), [0]))
+        for fname, kw, want in jobs:
+            if hbad[fname]:
+                continue
+            hcnt += 1
+            res = L.run(lambda: aslist(fns[fname](**kw), "result"))
+            if res != ("ok", want):
+                hbad[fname] = (tag, res, want)
+
+    for depth in (1, 2):
+        sts = states(hn, depth)
+        for s1 in sts:
+            sig1 = [sum(m) for m in s1]
+            for s2 in sts:
+                if s1 == s2:
+                    continue
+                if depth > 1 and not thorough_hist(ctx) and [
+                        sum(m) for m in s2] != sig1:
+                    continue
+                ch = build(hn, s1)
+                check_all(ch, f"hierarchy {_show(ch)}")
+                before = _show(ch)
+                for d, mask in zip(ch[:-1], s2):
+                    d.filter.set_all(list(mask))
+                check_all(ch, f"ancestor filters changed in place {before} "
+                          f"-> {_show(ch)} (same objects)")
+    for fname in fnames:
+        b = hbad[fname]
+        ctx.ob("R4.4", b is None,
+               f"still equals its specification after the ancestors' "
+               f"filters were changed on the same objects ({hcnt} "
+               f"evaluations over all filter pairs)" if b is None else
+               f"{b[0]}: code gives {_res(b[1])}, specification {b[2]} - "
+               f"the index translation uses state remembered from the "
+               f"previous filter", node=repo.func(MAPPER, fname),
+               label="specification after a filter change (history)")
+    tot += hcnt
     ctx.stat("R4.4 evaluations", tot)
 
 
+def thorough_hist(ctx):
+    return ctx.tier == "thorough"
+
+
 def _show(ch):
-    return " > ".join("".join("1" if m else "0" for m in d.filter.all.data)
+    return " > ".join("".join("1" if m else "0" for m in d.mask())
                       for d in ch[:-1])
 
 
@@ -1100,14 +1187,14 @@ def build(n, state):
     root = MDS(n=n)
     ch = [root]
     for mask in state:
-        ch[-1].filter = MFilter(list(mask))
+        ch[-1].filter = MFilter(list(mask), ch[-1])
         ch.append(MDS(hparent=ch[-1]))
     return ch
 
 
 def set_state(ch, state):
     for d, mask in zip(ch[:-1], state):
-        d.filter = MFilter(list(mask))
+        d.filter = MFilter(list(mask), d)
 
 
 def r46(ctx, repo, henv, n, depths):
@@ -1119,30 +1206,77 @@ def r46(ctx, repo, henv, n, depths):
     def fmt(s):
         return " > ".join("".join("1" if m else "0" for m in x) for x in s)
 
+    def live(state):
+        """hierarchy whose members (not the root) carry an interpreted
+        HierarchyFilter, all synchronised top-down"""
+        root = MDS(n=n)
+        root.filter = MFilter(list(state[0]), root)
+        ch = [root]
+        for k in range(1, len(state) + 1):
+            d = MDS(hparent=ch[-1])
+            d.filter = hf_cls(d)
+            own = state[k] if k < len(state) else [True] * len(d)
+            d.filter._attrs["all"] = L.Arr(list(own))
+            ch.append(d)
+        return ch
+
+    def refresh(ch, state):
+        """RTDC_Hierarchy.apply_filter of the youngest member: every
+        ancestor is refreshed first (root first), each member re-creates
+        its filter when its parent-change witness says so and then
+        evaluates its own filter; returns the youngest member's witness"""
+        ch[0].filter.set_all(list(state[0]))
+        for k in range(1, len(ch)):
+            d = ch[k]
+            changed = bool(L.lookup_attr(it, d.filter, "parent_changed",
+                                         None))
+            if k == len(ch) - 1:
+                return changed
+            if changed:
+                d.filter = hf_cls(d)
+            size = len(d)
+            own = list(state[k])
+            if len(own) != size:
+                # witness of an intermediate member missed a change of its
+                # size: reported by the scan at that depth
+                return None
+            d.filter._attrs["all"] = L.Arr(own)
+        return None
+
     def scan(depth):
         sts = states(n, depth)
         cnt = 0
+        def snap(v):
+            if isinstance(v, L.Arr):
+                return v.copy()
+            return list(v) if isinstance(v, list) else v
         for s1 in sts:
-            ch = build(n, s1)
-            child = ch[-1]
-            ids1 = child.ids()
-            res = L.run(lambda: hf_cls(child))
+            res = L.run(lambda: live(s1))
             if res[0] != "ok":
                 return cnt, (s1, s1, res, "construction")
-            hf = res[1]
+            ch = res[1]
+            ids1 = ch[-1].ids()
+            saved = [(d, d.filter, {k: snap(v) for k, v in
+                                    d.filter._attrs.items()})
+                     for d in ch[1:]]
             for s2 in sts:
-                set_state(ch, s2)
-                ids2 = child.ids()
+                # back to the synchronised state s1 (same filter objects)
+                ch[0].filter.set_all(list(s1[0]))
+                for d, f, attrs in saved:
+                    d.filter = f
+                    f._attrs.clear()
+                    f._attrs.update({k: snap(v) for k, v in attrs.items()})
+                res = L.run(lambda: refresh(ch, s2))
                 cnt += 1
-                res = L.run(lambda: bool(L.lookup_attr(
-                    it, hf, "parent_changed", None)))
                 if res[0] != "ok":
                     return cnt, (s1, s2, res, None)
+                if res[1] is None:
+                    continue
+                ids2 = ch[-1].ids()
                 if ids1 != ids2 and res[1] is not True:
                     return cnt, (s1, s2, res, True)
                 if s1 == s2 and res[1] is not False:
                     return cnt, (s1, s2, res, False)
-            set_state(ch, s1)
         return cnt, None
 
     def report(label, cnt, bad, what):
@@ -1152,9 +1286,10 @@ def r46(ctx, repo, henv, n, depths):
                f"({cnt} state pairs, {what})" if bad is None else
                (f"the parent-change witness misses a change: ancestor "
                 f"filters {fmt(bad[0])} -> {fmt(bad[1])} give the child "
-                f"different underlying events, parent_changed is "
-                f"{_res(bad[2])}: the child's filter (manual exclusions, "
-                f"cached box filters) keeps describing the old events"
+                f"different underlying events, but after the ancestors "
+                f"were refreshed (root first) the child's parent_changed is "
+                f"{_res(bad[2])}: its filter (manual exclusions, cached box "
+                f"filters) keeps describing the old events"
                 if bad[3] is True else
                 f"parent_changed is {_res(bad[2])} for ancestor filters "
                 f"{fmt(bad[0])} -> {fmt(bad[1])}, expected {bad[3]}"),
@@ -1193,7 +1328,8 @@ def r47(ctx, repo, henv, n, depths, n_deep):
             m = len(ids)
             res = L.run(lambda: hf_cls(child))
             if res[0] != "ok":
-                bad_r = bad_a = (st, "construction", res, None)
+                bad_r = (st, "construction of the filter", res, None, None)
+                bad_a = (st, "construction of the filter", res, None, None)
                 break
             hf = res[1]
             for old in subsets(list(range(nn))):
@@ -1366,7 +1502,8 @@ def run(ctx):
     ctx.rule("R4.3", "Child* accessors return the parent's data at the "
              "mapped positions (all small hierarchies)", minimum=10)
     ctx.rule("R4.4", "map_indices_* equal their specification on all small "
-             "hierarchies, depth 1..3", minimum=12)
+             "hierarchies, depth 1..3, and after in-place filter changes",
+             minimum=16)
     ctx.rule("R4.5", "manual indices handed over the filter re-creation; "
              "set_temporary_feature on a child", minimum=6)
     ctx.rule("R4.6", "parent-change witness covers every ancestor",
@@ -1647,4 +1784,69 @@ MUTANTS = list(MUTANTS) + [
        "        self._length = None\n\n" + _REPOP,
        "        self._repopulate_events()\n        self._length = None\n"),
       (_UPD, _HELPER_HEAD + _REPOP + "\n" + _UPD)], "R4.1"),
+]
+
+# round-2 seeded changes (/verif/seeded/C04_4, C04_5) and relatives
+_CACHE_HELPER = (
+    "def _child_locations(parent, pf):\n"
+    "    \"\"\"Cached `np.where(pf)[0]`\"\"\"\n"
+    "    loc = getattr(parent.filter, \"_child_loc\", None)\n"
+    "    if loc is None or loc.size != np.count_nonzero(pf):\n"
+    "        loc = parent.filter._child_loc = np.where(pf)[0]\n"
+    "    return loc\n\n\n")
+_PLAIN_HELPER = (
+    "def _child_locations(parent, pf):\n"
+    "    \"\"\"`np.where(pf)[0]`: parent indices of the child's events\"\"\"\n"
+    "    return np.where(pf)[0]\n\n\n")
+_USE_HELPER = [
+    ("    idx = np.where(pf)[0]  # True means present in the child",
+     "    idx = _child_locations(parent, pf)"),
+    ("    pf_loc = np.where(pf)[0]", "    pf_loc = _child_locations(parent, pf)"),
+]
+_WALK_OLD = ("            if ds.format == \"hierarchy\":\n"
+             "                ds = ds.hparent\n"
+             "            else:\n"
+             "                break\n")
+
+MUTANTS = list(MUTANTS) + [
+    ("index table cached on the parent filter, keyed by its length (seeded)",
+     MAPPER,
+     _USE_HELPER + [("def map_indices_child2parent(",
+                     _CACHE_HELPER + "def map_indices_child2parent(")],
+     "R4.4"),
+    ("index table cached on the child, never refreshed", MAPPER,
+     [("    idx = np.where(pf)[0]  # True means present in the child",
+       "    idx = getattr(child, \"_ploc\", None)\n"
+       "    if idx is None:\n"
+       "        idx = child._ploc = np.where(pf)[0]")], "R4.4"),
+    ("ancestor walk stops at synchronised parents (seeded)", HFILT,
+     (_WALK_OLD,
+      "            if ds.format == \"hierarchy\" and "
+      "ds.filter.parent_changed:\n"
+      "                ds = ds.hparent\n"
+      "            else:\n"
+      "                break\n"), "R4.6"),
+    ("ancestor walk skips the root", HFILT,
+     (_WALK_OLD,
+      "            if ds.format == \"hierarchy\" and "
+      "ds.hparent.format == \"hierarchy\":\n"
+      "                ds = ds.hparent\n"
+      "            else:\n"
+      "                break\n"), "R4.6"),
+]
+
+TWINS = list(TWINS) + [
+    ("index table computed in an extracted helper (no memo)", MAPPER,
+     _USE_HELPER + [("def map_indices_child2parent(",
+                     _PLAIN_HELPER + "def map_indices_child2parent(")]),
+    ("ancestor walk as a while-condition loop", HFILT,
+     ("        hashes = []\n"
+      "        ds = self._parent_rtdc_ds\n"
+      "        while True:\n"
+      "            hashes.append(hashobj(ds.filter.all))\n" + _WALK_OLD,
+      "        ds = self._parent_rtdc_ds\n"
+      "        hashes = [hashobj(ds.filter.all)]\n"
+      "        while ds.format == \"hierarchy\":\n"
+      "            ds = ds.hparent\n"
+      "            hashes.append(hashobj(ds.filter.all))\n")),
 ]
